@@ -225,6 +225,9 @@ pub struct DiagFamily {
     tok: u64,
     scope: u64,
     ty: u64,
+    // 2b: p : A1 = 1; q : A2 = 2; r : A3 = 3; 0 with the *annotations* drawn from the ill-typed pieces
+    //     (several annotation diagnostics for one group), at top level and under binders
+    ann: u64,
     order2: Family,
     order3: Family,
     // 4: well-typed programs with aliases, recursive groups, forward references and nested groups
@@ -269,10 +272,10 @@ impl DiagFamily {
                 }
             }
         }
-        DiagFamily { tok: (1..=5).map(|n| 5u64.pow(n)).sum(), scope: 125 * 125, ty: 216, order2: Family::new(2), order3: Family::new(3), typed }
+        DiagFamily { tok: (1..=5).map(|n| 5u64.pow(n)).sum(), scope: 125 * 125, ty: 216, ann: 216 * 2, order2: Family::new(2), order3: Family::new(3), typed }
     }
     pub fn count(&self) -> u64 {
-        self.tok + self.scope + self.ty + self.order2.count() + self.order3.count().div_ceil(7) + self.typed.len() as u64
+        self.tok + self.scope + self.ty + self.ann + self.order2.count() + self.order3.count().div_ceil(7) + self.typed.len() as u64
     }
     pub fn program(&self, mut idx: u64) -> String {
         if idx < self.tok {
@@ -310,6 +313,18 @@ impl DiagFamily {
             return format!("{}; 0", defs.join("; "));
         }
         idx -= self.ty;
+        if idx < self.ann {
+            let nested = idx % 2 == 1;
+            idx /= 2;
+            let mut defs = vec![];
+            for (n, v) in [("p", "1"), ("q", "2"), ("r", "3")] {
+                defs.push(format!("{n} : ({}) = {v}", TYPE_PIECES[(idx % 6) as usize]));
+                idx /= 6;
+            }
+            let group = format!("{}; 0", defs.join("; "));
+            return if nested { format!("{{a : type}} => (k : a -> int) => (s : a) => ({group})") } else { group };
+        }
+        idx -= self.ann;
         if idx < self.order2.count() {
             return self.order2.program(idx);
         }
@@ -387,6 +402,71 @@ fn thread_sweep(tier: Tier) -> Sweep {
             }
         },
         move |idx| f2.program(idx),
+    )
+}
+
+// Two stray tokens in one sentence: every sentence of the class alphabet up to 5 [6] tokens and of the
+// conditional / definition slice from 6 to 8 [9] tokens, with two tokens inserted at every pair of
+// positions (four pairs of kinds), so that several recovery diagnostics are produced, some of them by one
+// and the same node of the parse tree. Tokenising and parsing are repeated (fresh hash keys each time);
+// the diagnostics must be the same, in the same order, every time.
+fn double_edit_sweep(what: &'static str, g: crate::model::grammar::Grammar, min_len: usize, max_len: usize, stride: u64) -> Sweep {
+    use crate::enumerate::{Sentences, name_simple};
+    use crate::model::tok::{self, K, Tok};
+    let sentences = Rc::new(std::cell::RefCell::new(Sentences::new(g.clone(), min_len, max_len)));
+    let total = sentences.borrow().total.div_ceil(stride);
+    let s2 = sentences.clone();
+    let g2 = g.clone();
+    const PAIRS: [(K, K); 4] = [(K::Colon, K::Colon), (K::Colon, K::RightParen), (K::Identifier, K::Then), (K::Equals, K::Else)];
+    Sweep::new(
+        &format!("sentences of {min_len}..{max_len} tokens ({what}) with two stray tokens inserted, parsed repeatedly"),
+        total,
+        move |i| {
+            let tree = sentences.borrow_mut().tree(i * stride);
+            let toks = name_simple(&g, &tree);
+            let n = toks.len();
+            for p in 0..=n {
+                for q in p..=n {
+                    for (k1, k2) in PAIRS {
+                        let mut d = toks.clone();
+                        d.insert(q, Tok::new(k2));
+                        d.insert(p, Tok::new(k1));
+                        count!("evaluations");
+                        count!("double_edits");
+                        let (src, ranges) = tok::layout(&d);
+                        let real = tok::real_tokens(&src, &d, &ranges);
+                        let mut first: Option<Vec<String>> = None;
+                        for r in 0..3 {
+                            let obs = bind::with_tokens(&src, &real, &[], 2, |f| match f {
+                                Front::Panic { message, .. } => vec![format!("panic: {message}")],
+                                Front::ParseErr { errors, .. } => bind::messages(&errors),
+                                _ => vec![],
+                            });
+                            count!("repeat_runs");
+                            match &first {
+                                None => first = Some(obs),
+                                Some(f) => {
+                                    if *f != obs {
+                                        violation("different-output-across-hash-seeds", &src, &format!("the same diagnostics on every repetition; first: {}", crate::infra::clip(&f.join(" | "), 1200)), &format!("repetition {r}: {}", crate::infra::clip(&obs.join(" | "), 1200)));
+                                        return;
+                                    }
+                                }
+                            }
+                        }
+                        let f = first.unwrap_or_default();
+                        if f.len() >= 2 {
+                            count!("multi_diagnostic_programs");
+                            count!("double_edit_multi_diagnostic");
+                            count!("nontrivial");
+                        }
+                    }
+                }
+            }
+        },
+        move |i| {
+            let tree = s2.borrow_mut().tree(i * stride);
+            format!("two stray tokens in: {}", tok::layout(&name_simple(&g2, &tree)).0)
+        },
     )
 }
 
@@ -489,6 +569,16 @@ impl Prop for C13 {
             v.push(tree_sweep(4, 48, 12));
         }
         v.push(thread_sweep(tier));
+        {
+            use crate::model::grammar::Grammar;
+            let g = Grammar::load();
+            v.push(double_edit_sweep("class alphabet", g.restrict(&crate::props::c07::class_alphabet(), &[]), 1, tier.pick(5, 6), 1));
+            for (name, sg) in crate::props::c07::slices(&g) {
+                if name == "if-let" {
+                    v.push(double_edit_sweep("conditionals and definitions", sg, 6, tier.pick(8, 9), tier.pick(3, 1)));
+                }
+            }
+        }
         v.push(launch_sweep(tier));
         v
     }
